@@ -81,10 +81,13 @@ def evaluators(I, two_runs=False, twin=False):
             if two_runs:
                 me.clear_history()
                 oe.clear_history()
+                cleared = (len(me) == 0 and me.last == {} and len(me.epochs) == 0 and len(oe) == 0 and oe.last == {} and len(oe.epochs) == 0)
                 first = list(seen)
                 del seen[:]
                 st.stop_training = False
                 st.fit(data, epochs=epochs, pos_batch_size=2, starting_epoch=start, callbacks=[rec, me, lg, oe], optimizer=_Opt)
+        if two_runs and not cleared:
+            return False, "clear_history left records behind: len %d/%d, last %r / %r" % (len(me), len(oe), me.last, oe.last)
         s0, e0, q1, q2, q3, k0 = int(start), int(epochs), int(p1), int(p2), int(p3), int(stop_at)
         run = [e for e in range(s0, e0 + 1)]
         if k0 in run:
